@@ -418,29 +418,50 @@ theorem fieldLit_ph (c : Ctx) (f : Field) (resolved : Ty) (extras : List (String
 
 /-! ## nesting, objects, schemas -/
 
-mutual
+def fieldsPhWith (g : Field → PhLit) : List Field → Bool
+  | [] => false
+  | f :: fs =>
+    match g f with
+    | .skip => fieldsPhWith g fs
+    | .emit b => b || fieldsPhWith g fs
+    | .stop => false
+
+def fieldPhAt (ss : Schemas) (f : Field) (extras : List (String × Val)) (nestedPh : List Field → Val → Bool) : PhLit :=
+  if isBad f.ty then .emit false else
+  match ss.resolveToType (ss.objectCount + 2) f.ty with
+  | none => .emit false
+  | some r => fieldLitPh ss f r extras nestedPh
+
+/-- the literal of a struct (at nesting budget `fuel`) contains a placeholder -/
 def structPh (ss : Schemas) : Nat → List Field → Val → Bool
   | 0, _, _ => false
-  | fuel + 1, fs, extra => fieldsPh ss fuel fs (extrasOf extra)
-def fieldsPh (ss : Schemas) : Nat → List Field → List (String × Val) → Bool
-  | _, [], _ => false
-  | fuel, f :: fs, extras =>
-    match fieldPh ss fuel f extras with
-    | .skip => fieldsPh ss fuel fs extras
-    | .emit b => b || fieldsPh ss fuel fs extras
-    | .stop => false
-def fieldPh (ss : Schemas) : Nat → Field → List (String × Val) → PhLit
-  | fuel, f, extras =>
-    if isBad f.ty then .emit false else
-    match ss.resolveToType (ss.objectCount + 2) f.ty with
-    | none => .emit false
-    | some r => fieldLitPh ss f r extras (fun rfs d => structPh ss fuel rfs d)
-end
+  | fuel + 1, fs, extra => fieldsPhWith (fun f => fieldPhAt ss f (extrasOf extra) (fun rfs d => structPh ss fuel rfs d)) fs
+
+def fieldPh (ss : Schemas) (fuel : Nat) (f : Field) (extras : List (String × Val)) : PhLit :=
+  fieldPhAt ss f extras (fun rfs d => structPh ss fuel rfs d)
+
+def fieldsPh (ss : Schemas) (fuel : Nat) (fs : List Field) (extras : List (String × Val)) : Bool :=
+  fieldsPhWith (fun f => fieldPh ss fuel f extras) fs
+
+theorem structPh_succ (ss : Schemas) (fuel : Nat) (fs : List Field) (extra : Val) :
+    structPh ss (fuel + 1) fs extra = fieldsPh ss fuel fs (extrasOf extra) := rfl
+theorem fieldsPh_cons (ss : Schemas) (fuel : Nat) (f : Field) (fs : List Field) (extras : List (String × Val)) :
+    fieldsPh ss fuel (f :: fs) extras =
+      (match fieldPh ss fuel f extras with
+        | .skip => fieldsPh ss fuel fs extras
+        | .emit b => b || fieldsPh ss fuel fs extras
+        | .stop => false) := rfl
+theorem fieldPh_eq (ss : Schemas) (fuel : Nat) (f : Field) (extras : List (String × Val)) :
+    fieldPh ss fuel f extras =
+      (if isBad f.ty then .emit false else
+        match ss.resolveToType (ss.objectCount + 2) f.ty with
+        | none => .emit false
+        | some r => fieldLitPh ss f r extras (fun rfs d => structPh ss fuel rfs d)) := rfl
 
 theorem field_ph (c : Ctx) (fuel : Nat)
     (ih : ∀ p n fs extra, nonEmpty (exprPlaceholders (defaultsForStruct c fuel p n fs extra)) = structPh c.ss fuel fs extra)
     (f : Field) (extras : List (String × Val)) : phOf (defaultsField c fuel f extras) = fieldPh c.ss fuel f extras := by
-  rw [defaultsField, fieldPh]
+  rw [defaultsField_eq, fieldPh_eq]
   split
   · simp [phOf, exprPlaceholders]
   · simp only [Ctx.resolve, Ctx.fuel]
@@ -452,11 +473,11 @@ theorem fields_ph (c : Ctx) (fuel : Nat)
     (ih : ∀ p n fs extra, nonEmpty (exprPlaceholders (defaultsForStruct c fuel p n fs extra)) = structPh c.ss fuel fs extra)
     (extras : List (String × Val)) : ∀ fs : List Field,
     nonEmpty (kvsPlaceholders (defaultsFields c fuel fs extras)) = fieldsPh c.ss fuel fs extras
-  | [] => by simp [defaultsFields, fieldsPh, kvsPlaceholders]
+  | [] => by simp [defaultsFields_nil, fieldsPh, fieldsPhWith, kvsPlaceholders]
   | f :: fs => by
     have hf := field_ph c fuel ih f extras
     have ihs := fields_ph c fuel ih extras fs
-    rw [defaultsFields, fieldsPh, ← hf]
+    rw [defaultsFields_cons, fieldsPh_cons, ← hf]
     cases hd : defaultsField c fuel f extras with
     | skip => simpa [phOf] using ihs
     | stop => simp [phOf, kvsPlaceholders]
@@ -466,10 +487,10 @@ theorem struct_ph (c : Ctx) : ∀ (fuel : Nat) (p n : String) (fs : List Field) 
     nonEmpty (exprPlaceholders (defaultsForStruct c fuel p n fs extra)) = structPh c.ss fuel fs extra := by
   intro fuel
   induction fuel with
-  | zero => intro p n fs extra; simp [defaultsForStruct, structPh, exprPlaceholders]
+  | zero => intro p n fs extra; simp [defaultsForStruct_zero, structPh, exprPlaceholders]
   | succ k ih =>
     intro p n fs extra
-    rw [defaultsForStruct, structPh, composite_ph _ _ (by simp [tyPlaceholders])]
+    rw [defaultsForStruct_succ, structPh_succ, composite_ph _ _ (by simp [tyPlaceholders])]
     exact fields_ph c k ih (extrasOf extra) fs
 
 /-- the declarations of this object contain a placeholder -/
